@@ -68,13 +68,13 @@ def gather(ck, tier, seed, families, maxlen=1):
 
 
 def deep(ck, seed, families, n, depth):
-    """random longer histories by TLC simulation (thorough tier)"""
+    """random longer histories by TLC simulation"""
+    # in simulation mode TLC evaluates IEmit on every successor it generates, so one random walk prints
+    # many complete behaviours; they are sub-sampled on the raw line
+    runs = [dict(module="MCInstance", cfg="MCInstanceDeep_" + fam, workers=3, timeout=1800, simulate=n, depth=depth + 1, seed=seed, sample=(20, seed))
+            for fam in families]
     cases = []
-    for fam in families:
-        cfg = "MCInstanceDeep_" + fam
-        # in simulation mode TLC evaluates IEmit on every successor it generates, so one random walk prints
-        # many complete behaviours; they are sub-sampled on the raw line
-        res = vlib.tlc("MCInstance", cfg=cfg, workers=4, timeout=1800, simulate=n, depth=depth + 1, seed=seed, sample=(20, seed))
+    for fam, res in zip(families, vlib.tlc_many(runs, parallel=5)):
         if res.rc not in (0,) or res.violated:
             vlib.tlc_expect_ok(res, "MCInstance deep " + fam)
         ck.add_tlc(res)
@@ -100,6 +100,9 @@ def run(tier, seed, replay):
         cases = gather(ck, tier, seed, FAMILIES)
         if tier != "quick":
             cases += deep(ck, seed, FAMILIES, 1500, 3)
+        else:
+            # a few histories of two and three updates (branch re-creation then update, list growth then shrinkage, ...)
+            cases += deep(ck, seed, ["F4", "F5", "UD", "US", "UP"], 60, 3)
     records = semrun.replay(cases, rnd, nvariants=1 if tier == "quick" else 2, chunk=120)
     c04.report_records(ck, cases, records)
     return ck.finish()
